@@ -78,7 +78,7 @@ def maybe_init(body, locs):
                 a1 = strip_refs(body.origin_operand(t["args"][1]))
                 while a0[0] in ("ref", "rawptr"):
                     a0 = strip_refs(a0[2])
-                if a0[0] in ("local", "mem") and a1[0] == "call" and callee_name(body.term(a1[1])) == "repr::Repr::new":
+                if a0[0] in ("local", "mem", "param") and a1[0] == "call" and callee_name(body.term(a1[1])) == "repr::Repr::new":
                     after.discard(a0[1])
                     cur.discard(a0[1])
             d = t["dest"]
@@ -223,23 +223,22 @@ def rule_drop_releases(ctx, rule="DROP"):
     ctx.need(rule, "LeanString", "drop-body", body is not None, "Drop::drop body missing")
     if body is None:
         return
-    # must-pass-through: every path from entry to return passes a call to replace_inner on self.0
-    rel = [bb for bb, t in body.calls() if callee_name(t) == "repr::Repr::replace_inner"]
-    def stop(b):
-        return b in rel
-    reach = body.reachable(0, unwind=False, stop=stop)
-    rets = [bb for bb in reach if body.term(bb)["k"] == "return" and bb not in rel]
-    # a return reachable without passing a release call?
-    ok = bool(rel) and not any(body.term(bb)["k"] == "return" for bb in reach if bb not in rel and _reaches_without(body, bb, rel))
-    ctx.ob(rule, key, "must-release", ok, how="every path to return passes Repr::replace_inner(self.0, Repr::new())",
+    # must-pass-through: every path from entry to return releases through replace_inner (possibly inside
+    # a private layer such as `replace_repr`)
+    from guards import must_pass_call, inlined_sites, describe
+    ok = must_pass_call(body, {"repr::Repr::replace_inner"})
+    ctx.ob(rule, key, "must-release", ok, how="every path to return passes Repr::replace_inner(self.0, <empty>)",
            detail="a path through <LeanString as Drop>::drop returns without calling the releasing replace_inner")
-    # and the replacement owns nothing: argument is Repr::new()
-    for bb in rel:
-        t = body.term(bb)
-        a = strip_refs(body.origin_operand(t["args"][1]))
-        good = a[0] == "call" and callee_name(body.term(a[1])) == "repr::Repr::new"
-        ctx.ob(rule, key, "replacement-is-empty", good, how="replacement is Repr::new()",
-               detail="Drop replaces the handle with something other than the empty inline Repr")
+    # and the replacement owns nothing: Repr::new() or a constant holding the empty inline encoding
+    M = F.const_scalar("repr::MAX_INLINE_SIZE")
+    empty_hex = ("00" * (M - 1) + "c0") if M else None
+    for st in inlined_sites(body, lambda nm: nm == "repr::Repr::replace_inner"):
+        d = st.desc(1)
+        good = d == "repr::Repr::new()"
+        if not good and d.startswith("const:"):
+            c = F.consts.get(d[len("const:"):])
+            good = c is not None and c.get("bytes") == empty_hex
+        ctx.ob(rule, key, "replacement-is-empty", good, how="replacement is the empty inline Repr", detail="Drop replaces the handle with %s, not the empty inline Repr" % d)
 
 
 def _reaches_without(body, bb, rel):
